@@ -227,8 +227,9 @@ def doStep (d : DState) (p : Params) (stream : Nat) (pre : List (Option (PointRe
     | some t => t
     | none => (caloSizes d.cbs).map fun n => List.replicate n 0.0
   let (views, ts) := fanOut p.sel st' d.cbs old
-  let ac := if d.adiag then
-      some (adiagStep d.nact post ((d.acounts.getD stream none).getD
+  -- with one track slot the ActionSequence never runs the diagnostic (no state is allocated)
+  let ac := if d.adiag && d.slots != 1 then
+      some (adiagSeqStep d.slots d.nact post ((d.acounts.getD stream none).getD
         (List.replicate (d.nact * d.nptc) 0)))
     else none
   let sc := if d.sbins > 0 then
